@@ -68,11 +68,11 @@ type jNode struct {
 	vals []*jNode
 }
 
-func jS(s string) *jNode   { return &jNode{k: jStr, s: s} }
-func jN(s string) *jNode   { return &jNode{k: jNum, s: s} }
-func jB(b bool) *jNode     { return &jNode{k: jBool, b: b} }
-func jNil() *jNode         { return &jNode{k: jNull} }
-func jRawT(s string) *jNode { return &jNode{k: jRaw, s: s} }
+func jS(s string) *jNode     { return &jNode{k: jStr, s: s} }
+func jN(s string) *jNode     { return &jNode{k: jNum, s: s} }
+func jB(b bool) *jNode       { return &jNode{k: jBool, b: b} }
+func jNil() *jNode           { return &jNode{k: jNull} }
+func jRawT(s string) *jNode  { return &jNode{k: jRaw, s: s} }
 func jA(xs ...*jNode) *jNode { return &jNode{k: jArr, arr: xs} }
 func jO(kv ...any) *jNode {
 	n := &jNode{k: jObj}
@@ -691,15 +691,15 @@ type cNode struct {
 	vals  []*cNode
 }
 
-func cU(n uint64) *cNode   { return &cNode{k: cUint, n: n} }
+func cU(n uint64) *cNode { return &cNode{k: cUint, n: n} }
 func cI(i int64) *cNode {
 	if i >= 0 {
 		return cU(uint64(i))
 	}
 	return &cNode{k: cNeg, n: uint64(-1 - i)}
 }
-func cB(b []byte) *cNode   { return &cNode{k: cBytes, b: b} }
-func cT(s string) *cNode   { return &cNode{k: cText, b: []byte(s)} }
+func cB(b []byte) *cNode { return &cNode{k: cBytes, b: b} }
+func cT(s string) *cNode { return &cNode{k: cText, b: []byte(s)} }
 func cM(kv ...*cNode) *cNode {
 	m := &cNode{k: cMap}
 	for i := 0; i+1 < len(kv); i += 2 {
